@@ -7,7 +7,7 @@ from fractions import Fraction
 import numpy as np
 
 from .. import gen1
-from ..core import rs
+from ..core import Rng, case_hash, rs
 from . import c05_bins, coll_parts
 from .base1 import Hist1Prop
 from .c04 import values as grid_values
@@ -50,6 +50,599 @@ def stats_same(a, b):
     return out
 
 
+# ======================================================================================================================
+# Sequence streams: operands whose state can only be reached by a SEQUENCE of public calls
+# ----------------------------------------------------------------------------------------------------------------------
+# An adaptive histogram never misses a value, so an ADAPTIVE operand that carries missed weight (underflow / overflow /
+# N-d missed) exists only after a history: built with a fixed range (outliers are missed) and THEN switched to adaptive
+# (`h.set_adaptive(True)`, `h.adaptive = True`, `h.binning.set_adaptive(True)`), optionally filled further; or made by the
+# raw constructor (`Histogram1D(adaptive_binning, frequencies, overflow=...)`), or read back from JSON.  Neighbouring
+# states: keep_missed toggled after filling, a slice of an adaptive histogram (the cut-off weight sits in its
+# underflow / overflow) added to its parent.  Such an operand meets a left operand that is adaptive on the same grid with
+# other bins / adaptive with equal bins / not adaptive, through `a + b`, `b + a`, `sum([a, b])`, `sum([b, a])`, `a += b`,
+# `b += a` (the in-place forms on copies).
+#
+# What the property pins there (SEQ oracle, stated on the snapshots only, exact Fractions):
+#   * an accepted addition holds everything both operands held: every bin (cell) of the result carries the sum of the
+#     operands' contents / squared errors of that very bin, no operand bin with a content is missing, the result spans
+#     exactly the union of both ranges on the common grid, and total + missed of the result equals the operands' totals +
+#     missed -- weight never silently disappears.  A REFUSAL of an operand with missed weight in the adaptive branch is
+#     just as acceptable (that is what physt does); a result that lost weight is not;
+#   * equal bins: the addition is accepted and underflow / overflow / inner (N-d: missed) add slot by slot;
+#   * two adaptive operands on one grid without any missed weight: accepted;
+#   * no register other than the target of an in-place addition changes (operands are never modified);
+#   * where both orders (and the in-place form) are accepted they give the same histogram;
+#   * dtype of the sum = numpy promotion; statistics add when both operands carry valid statistics.
+# Nothing is demanded of: exception classes, the keep_missed / adaptive flag of a result, the slots of operands whose
+# keep_missed is off (they read NaN), which slot (under / over) an adaptive result keeps an operand's missed weight in.
+SEQ_STREAM_1D = "stream:seq_missed_adaptive_1d"
+SEQ_STREAM_ND = "stream:seq_missed_adaptive_nd"
+SEQ_LEFT_MODES = ("adaptive_other", "adaptive_other", "adaptive_other", "adaptive_equal", "static_equal", "static_other")
+SEQ_WIDTHS = (1.0, 0.5, 0.25, 2.0)
+
+
+def _seq_weights(rng, n):
+    kind = rng.choice(["none", "none", "int", "dyadic"])
+    if kind == "none":
+        return None, None
+    if kind == "int":
+        return [rs(rng.randint(0, 4)) for _ in range(n)], "int64"
+    return [rs(rng.randint(0, 12) / 4) for _ in range(n)], "float64"
+
+
+def _seq_keep(rng, p):
+    """(keep_missed at creation, values assigned to keep_missed after filling)"""
+    if rng.random() >= p:
+        return True, []
+    return rng.choice([(True, [False]), (True, [False, True]), (False, [True]), (False, [])])
+
+
+# ---------------------------------------------------------------------------------------------------------------- 1-D
+def _seq1_operand(rng, w, shift, route, tmin, count, adaptive_end, with_missed, keep_p=0.0, allow_more=True):
+    """one operand description; positions are (cell + quarter / 4) * w + shift: exact doubles"""
+    pos = lambda cell: rs((cell + rng.choice([0, 1, 2, 3]) / 4) * w + shift)
+    sp = {"route": route, "tmin": tmin, "count": count, "adaptive_end": adaptive_end,
+          "via": rng.choice(["method", "property", "binning"]), "more": [], "roundtrip": False}
+    sp["keep0"], sp["keep_ops"] = _seq_keep(rng, keep_p)
+    if route == "raw":
+        isint = rng.random() < 0.6
+        num = (lambda hi: rs(rng.randint(0, hi))) if isint else (lambda hi: rs(rng.randint(0, 4 * hi) / 4))
+        sp["dtype"] = "int64" if isint else "float64"
+        sp["freq"] = [num(5) for _ in range(count)]
+        sp["under"] = num(3) if with_missed and rng.random() < 0.6 else "0"
+        sp["over"] = num(3) if with_missed and (sp["under"] == "0" or rng.random() < 0.5) else "0"
+        if with_missed and sp["under"] == "0" and sp["over"] == "0":
+            sp["over"] = "2"
+        return sp
+    n = rng.choice([1, 2, 3, 5])
+    cells = [rng.randint(tmin, tmin + count - 1) for _ in range(n)]
+    if route == "range" and with_missed:
+        for _ in range(rng.choice([1, 1, 2, 3])):
+            cells.append(rng.choice([tmin - rng.randint(1, 4), tmin + count - 1 + rng.randint(1, 4)]))
+        rng.shuffle(cells)
+    sp["vals"] = [pos(c) for c in cells]
+    sp["ws"], sp["wk"] = _seq_weights(rng, len(cells))
+    if route == "range" and adaptive_end and allow_more and rng.random() < 0.4:
+        sp["more"] = [pos(rng.randint(tmin - 4, tmin + count + 3)) for _ in range(rng.choice([1, 2, 3]))]
+    return sp
+
+
+def _seq1_span(sp, w, shift):
+    """(first cell, one past the last cell) of the operand's bins once its history has run"""
+    cell = lambda v: int((Fraction(v) - Fraction(shift)) // Fraction(w))
+    if sp["route"] == "grown":
+        cs = [cell(v) for v in sp["vals"]]
+        return min(cs), max(cs) + 1
+    lo, hi = sp["tmin"], sp["tmin"] + sp["count"]
+    for v in sp["more"]:
+        lo, hi = min(lo, cell(v)), max(hi, cell(v) + 1)
+    return lo, hi
+
+
+def seq1_gen(rng, left=None, keep_b=None):
+    w = rng.choice(SEQ_WIDTHS)
+    shift = rng.choice([0.0, 0.0, 0.5 * w])
+    # ---- the right operand: the state reachable by a sequence only
+    if keep_b is not None:
+        w, shift, b = float(Fraction(keep_b["w"])), float(Fraction(keep_b["shift"])), copy.deepcopy(keep_b["b"])
+    else:
+        route = rng.choice(["range"] * 6 + ["raw"] * 3 + ["grown"])
+        tmin, count = rng.randint(-6, 6), rng.randint(1, 4)
+        b = _seq1_operand(rng, w, shift, route, tmin, count, adaptive_end=rng.random() < 0.9,
+                          with_missed=rng.random() < 0.8, keep_p=0.15)
+        if route == "grown":
+            b["adaptive_end"] = True
+        if not b["keep_ops"] and b["keep0"] and rng.random() < 0.2:
+            b["roundtrip"] = True
+    lo, hi = _seq1_span(b, w, shift)
+    # ---- the left operand
+    mode = left or rng.choice(SEQ_LEFT_MODES)
+    slice_of = None
+    if left is None and keep_b is None and rng.random() < 0.12:
+        # neighbouring class: b is a SLICE of the adaptive parent a (what is cut off sits in b's underflow / overflow)
+        mode = "parent_of_slice"
+        ta = rng.randint(-6, 4)
+        a = _seq1_operand(rng, w, shift, "grown", ta, rng.randint(3, 5), True, False)
+        a["vals"] += [rs((ta + i + 0.5) * w + shift) for i in (0, a["count"] - 1)]      # the whole range is really there
+        if a["ws"] is not None:
+            a["ws"] += ["1", "1"]
+        n = a["count"]
+        start = rng.randint(0, n - 1)
+        slice_of = [rng.choice([None, start]) if start == 0 else start, rng.choice([None, rng.randint(start + 1, n)])]
+        b = {"route": "slice", "adaptive_end": rng.random() < 0.3, "via": "method", "more": [], "roundtrip": False,
+             "keep0": True, "keep_ops": []}
+    elif mode == "adaptive_other":
+        off = rng.choice([-7, -5, -3, -2, -1, 1, 2, 3, 5, 7])
+        ta, ca = lo + off, rng.randint(1, 4)
+        r = rng.random()
+        if r < 0.7:
+            a = _seq1_operand(rng, w, shift, "grown", ta, ca, True, False, keep_p=0.1)
+        elif r < 0.9:
+            a = _seq1_operand(rng, w, shift, "range", ta, ca, True, rng.random() < 0.7, keep_p=0.1)
+        else:
+            a = _seq1_operand(rng, w, shift, "raw", ta, ca, True, rng.random() < 0.3)
+    elif mode in ("adaptive_equal", "static_equal"):
+        a = _seq1_operand(rng, w, shift, rng.choice(["range", "raw"]), lo, hi - lo, mode == "adaptive_equal",
+                          rng.random() < 0.5, keep_p=0.1, allow_more=False)
+    else:
+        a = _seq1_operand(rng, w, shift, rng.choice(["range", "range", "raw"]), lo + rng.choice([-5, -2, -1, 1, 2, 4]),
+                          rng.randint(1, 4), False, rng.random() < 0.4)
+    src = {"w": rs(w), "shift": rs(shift), "a": a, "b": b, "slice": slice_of, "left": mode}
+    return seq1_build(src)
+
+
+def _seq1_setup(ops, sp, reg, w, shift, parent=None, slice_of=None):
+    fixed = lambda count, tmin, adaptive: gen1.fixed_json(w, tmin, count, shift=shift, adaptive=adaptive)
+    route = sp["route"]
+    if route == "slice":
+        ops.append({"op": "slice", "h": parent, "start": slice_of[0], "stop": slice_of[1], "out": reg, "setup": True})
+        if sp["adaptive_end"]:      # a slice has static bins: physt refuses to make them adaptive (either way is fine)
+            ops.append({"op": "set_adaptive", "h": reg, "value": True, "via": "method", "setup": True, "maybe": True})
+        return
+    if route == "grown":
+        ops.append({"op": "empty", "out": reg, "binning": fixed(0, 0, True), "keep": sp["keep0"], "setup": True})
+        ops.append({"op": "fill_n", "h": reg, "vs": sp["vals"], "ws": sp["ws"], "wkind": sp["wk"], "setup": True})
+        if not sp["adaptive_end"]:
+            ops.append({"op": "set_adaptive", "h": reg, "value": False, "via": sp["via"], "on_binning": sp["via"] == "binning",
+                        "setup": True})
+    elif route == "range":
+        ops.append({"op": "construct", "out": reg, "binning": fixed(sp["count"], sp["tmin"], False), "data": sp["vals"],
+                    "weights": sp["ws"], "wkind": sp["wk"], "keep": sp["keep0"], "setup": True})
+        if sp["adaptive_end"]:
+            ops.append({"op": "set_adaptive", "h": reg, "value": True, "via": sp["via"], "on_binning": sp["via"] == "binning",
+                        "setup": True})
+            if sp["more"]:
+                ops.append({"op": "fill_n", "h": reg, "vs": sp["more"], "ws": None, "wkind": None, "setup": True})
+    else:
+        ops.append({"op": "of_arrays", "out": reg, "binning": fixed(sp["count"], sp["tmin"], sp["adaptive_end"]),
+                    "freq": sp["freq"], "err2": None, "under": sp["under"], "over": sp["over"], "inner": "0",
+                    "dtype": sp["dtype"], "keep": sp["keep0"], "setup": True})
+    if sp["roundtrip"]:
+        ops.append({"op": "roundtrip", "h": reg, "out": reg, "setup": True})
+    for v in sp["keep_ops"]:
+        ops.append({"op": "set_keep", "h": reg, "value": v, "setup": True})
+
+
+def _seq_binary_ops(ops):
+    """a = register 0, b = register 1: both orders of +, of sum(), and of += (on copies)"""
+    base = len(ops)
+    ops.append({"op": "add", "a": 0, "b": 1, "out": 2})
+    ops.append({"op": "add", "a": 1, "b": 0, "out": 3})
+    ops.append({"op": "sum", "hs": [0, 1], "out": 4})
+    ops.append({"op": "sum", "hs": [1, 0], "out": 5})
+    ops.append({"op": "copy", "h": 0, "out": 6})
+    ops.append({"op": "iadd", "h": 6, "o": 1})
+    ops.append({"op": "copy", "h": 1, "out": 7})
+    ops.append({"op": "iadd", "h": 7, "o": 0})
+    # op indices whose results must be the same histogram whenever both are accepted
+    return [[base, base + 1], [base + 2, base + 3], [base, base + 2], [base, base + 5], [base + 1, base + 7]]
+
+
+def _seq_tags(src, stream, extra=()):
+    a, b = src["a"], src["b"]
+    t = [stream, *extra, "seq_left:" + src["left"], "seq_right:" + b["route"] + ("" if b["adaptive_end"] else "_nonadaptive")]
+    for who, sp in (("a", a), ("b", b)):
+        if sp["route"] in ("range", "grown") and (sp["adaptive_end"] != (sp["route"] == "grown")):
+            t.append(f"seq_{who}_switched_via:" + sp["via"])
+        if sp["more"]:
+            t.append(f"seq_{who}_filled_after_switch")
+        if sp["roundtrip"]:
+            t.append(f"seq_{who}_json_roundtrip")
+        if sp["keep_ops"] or not sp["keep0"]:
+            t.append(f"seq_{who}_keep_missed_toggled")
+    return t
+
+
+def seq1_build(src):
+    w, shift = float(Fraction(src["w"])), float(Fraction(src["shift"]))
+    ops = []
+    _seq1_setup(ops, src["a"], 0, w, shift)
+    _seq1_setup(ops, src["b"], 1, w, shift, parent=0, slice_of=src.get("slice"))
+    same = _seq_binary_ops(ops)
+    return {"kind": "hist1", "sub": "seq", "ops": ops, "same": same, "tags": _seq_tags(src, SEQ_STREAM_1D), "src": src}
+
+
+# ---------------------------------------------------------------------------------------------------------------- N-d
+def _seqn_operand(rng, ws, route, tmin, count, adaptive_end, with_missed, keep_p=0.0):
+    d = len(ws)
+    row = lambda cells: [rs((c + rng.choice([0, 1, 2, 3]) / 4) * ws[i]) for i, c in enumerate(cells)]
+    sp = {"route": route, "tmin": tmin, "count": count, "adaptive_end": adaptive_end,
+          "via": rng.choice(["method", "property", "axes", "axes", "one_axis"]) if route != "raw" else "method",
+          "axis": rng.randrange(d), "more": [], "roundtrip": False}
+    sp["keep0"], sp["keep_ops"] = _seq_keep(rng, keep_p)
+    if not sp["keep0"] and route == "raw":
+        sp["keep0"] = True
+    if route == "raw":
+        isint = rng.random() < 0.6
+        num = (lambda hi: rs(rng.randint(0, hi))) if isint else (lambda hi: rs(rng.randint(0, 4 * hi) / 4))
+        n = 1
+        for c in count:
+            n *= c
+        sp["dtype"] = "int64" if isint else "float64"
+        sp["freq"] = [num(4) for _ in range(n)]
+        sp["missed"] = (num(4) if rng.random() < 0.7 else "3") if with_missed else "0"
+        if with_missed and sp["missed"] == "0":
+            sp["missed"] = "2"
+        return sp
+    inside = lambda: [rng.randint(tmin[i], tmin[i] + count[i] - 1) for i in range(d)]
+    cells = [inside() for _ in range(rng.choice([1, 2, 4, 6]))]
+    if route == "range" and with_missed:
+        for _ in range(rng.choice([1, 2, 3])):
+            c = inside()
+            i = rng.randrange(d)
+            c[i] = rng.choice([tmin[i] - rng.randint(1, 3), tmin[i] + count[i] - 1 + rng.randint(1, 3)])
+            cells.append(c)
+        rng.shuffle(cells)
+    sp["rows"] = [row(c) for c in cells]
+    sp["ws"], sp["wk"] = _seq_weights(rng, len(cells))
+    if route == "range" and adaptive_end and sp["via"] != "one_axis" and rng.random() < 0.35:
+        sp["more"] = [row([rng.randint(tmin[i] - 3, tmin[i] + count[i] + 2) for i in range(d)]) for _ in range(rng.choice([1, 2]))]
+    return sp
+
+
+def _seqn_span(sp, ws):
+    d = len(ws)
+    cell = lambda v, i: int(Fraction(v) // Fraction(ws[i]))
+    if sp["route"] == "grown":
+        cols = [[cell(r[i], i) for r in sp["rows"]] for i in range(d)]
+        return [(min(c), max(c) + 1) for c in cols]
+    out = []
+    for i in range(d):
+        lo, hi = sp["tmin"][i], sp["tmin"][i] + sp["count"][i]
+        for r in sp["more"]:
+            lo, hi = min(lo, cell(r[i], i)), max(hi, cell(r[i], i) + 1)
+        out.append((lo, hi))
+    return out
+
+
+def seqn_gen(rng, left=None, keep_b=None):
+    d = rng.choice([2, 2, 2, 3])
+    ws = [rng.choice([1.0, 0.5, 2.0]) for _ in range(d)]
+    if keep_b is not None:
+        ws, b = [float(Fraction(x)) for x in keep_b["ws"]], copy.deepcopy(keep_b["b"])
+        d = len(ws)
+    else:
+        route = rng.choice(["range"] * 6 + ["raw"] * 3 + ["grown"])
+        tmin = [rng.randint(-4, 4) for _ in range(d)]
+        count = [rng.randint(1, 3) for _ in range(d)]
+        b = _seqn_operand(rng, ws, route, tmin, count, adaptive_end=rng.random() < 0.9, with_missed=rng.random() < 0.8,
+                          keep_p=0.12)
+        if route == "grown":
+            b["adaptive_end"], b["via"] = True, "method"
+        if not b["keep_ops"] and b["keep0"] and rng.random() < 0.2:
+            b["roundtrip"] = True
+    span = _seqn_span(b, ws)
+    mode = left or rng.choice(SEQ_LEFT_MODES)
+    if mode == "adaptive_other":
+        ta = [lo + rng.choice([-4, -2, -1, 0, 1, 2, 4]) for lo, _ in span]
+        if all(x == lo for x, (lo, _) in zip(ta, span)):
+            ta[0] += 2
+        ca = [rng.randint(1, 3) for _ in range(d)]
+        r = rng.random()
+        a = _seqn_operand(rng, ws, "grown" if r < 0.7 else "range" if r < 0.9 else "raw", ta, ca, True,
+                          r >= 0.7 and rng.random() < 0.5, keep_p=0.08)
+        if a["route"] != "raw":
+            a["via"] = rng.choice(["method", "property", "axes"])
+    elif mode in ("adaptive_equal", "static_equal"):
+        a = _seqn_operand(rng, ws, rng.choice(["range", "raw"]), [lo for lo, _ in span], [hi - lo for lo, hi in span],
+                          mode == "adaptive_equal", rng.random() < 0.5, keep_p=0.08)
+        a["more"] = []
+        if a["route"] != "raw":
+            a["via"] = rng.choice(["method", "property", "axes"])
+    else:
+        a = _seqn_operand(rng, ws, rng.choice(["range", "range", "raw"]), [lo + rng.choice([-3, -1, 1, 2]) for lo, _ in span],
+                          [rng.randint(1, 3) for _ in range(d)], False, rng.random() < 0.4)
+    src = {"d": d, "ws": [rs(x) for x in ws], "a": a, "b": b, "left": mode}
+    return seqn_build(src)
+
+
+def _seqn_setup(ops, sp, reg, ws):
+    d = len(ws)
+    axes = lambda adaptive, empty=False: [gen1.fixed_json(ws[i], 0 if empty else sp["tmin"][i], 0 if empty else sp["count"][i],
+                                                          adaptive=adaptive) for i in range(d)]
+    route = sp["route"]
+
+    def switch(value):
+        if sp["via"] in ("axes", "one_axis"):
+            for i in (range(d) if sp["via"] == "axes" else [sp["axis"]]):
+                ops.append({"op": "set_adaptive", "h": reg, "value": value, "axis": i, "setup": True})
+        else:
+            ops.append({"op": "set_adaptive", "h": reg, "value": value, "via": sp["via"], "setup": True})
+    if route == "grown":
+        ops.append({"op": "empty", "out": reg, "axes": axes(True, empty=True), "keep": sp["keep0"], "setup": True})
+        ops.append({"op": "fill_n", "h": reg, "rows": sp["rows"], "ws": sp["ws"], "wkind": sp["wk"], "setup": True})
+        if not sp["adaptive_end"]:
+            switch(False)
+    elif route == "range":
+        if sp["keep0"]:
+            ops.append({"op": "construct", "out": reg, "axes": axes(False), "rows": sp["rows"], "weights": sp["ws"],
+                        "wkind": sp["wk"], "setup": True})
+        else:       # the facades always keep the missed weight: a histogram that does not is an empty one, filled
+            ops.append({"op": "empty", "out": reg, "axes": axes(False), "keep": False, "setup": True})
+            ops.append({"op": "fill_n", "h": reg, "rows": sp["rows"], "ws": sp["ws"], "wkind": sp["wk"], "setup": True})
+        if sp["adaptive_end"]:
+            switch(True)
+            if sp["more"]:
+                ops.append({"op": "fill_n", "h": reg, "rows": sp["more"], "ws": None, "wkind": None, "setup": True})
+    else:
+        ops.append({"op": "of_arrays", "out": reg, "axes": axes(sp["adaptive_end"]), "freq": sp["freq"], "err2": None,
+                    "missed": sp["missed"], "dtype": sp["dtype"], "keep": sp["keep0"], "setup": True})
+    if sp["roundtrip"]:
+        ops.append({"op": "roundtrip", "h": reg, "out": reg, "setup": True})
+    for v in sp["keep_ops"]:
+        ops.append({"op": "set_keep", "h": reg, "value": v, "setup": True})
+
+
+def seqn_build(src):
+    ws = [float(Fraction(x)) for x in src["ws"]]
+    ops = []
+    _seqn_setup(ops, src["a"], 0, ws)
+    _seqn_setup(ops, src["b"], 1, ws)
+    same = _seq_binary_ops(ops)
+    return {"kind": "histn", "sub": "seq", "fuel": 64, "ops": ops, "same": same,
+            "tags": _seq_tags(src, SEQ_STREAM_ND, ("nd", f"d:{src['d']}")), "src": src}
+
+
+# ------------------------------------------------------------------------------------ running the sequences on physt
+def _seq_extra_step(s, op, log):
+    """the ops of the sequence streams that the shared runners (impl1 / implnd) do not have, through the public API"""
+    name = op["op"]
+    if not (name in ("set_keep", "roundtrip", "sum") or (name == "set_adaptive" and op.get("axis") is None)):
+        return NotImplemented
+    from ..impl1 import REFUSED
+    try:
+        if name == "sum":
+            s.set(op["out"], sum(s.get(i) for i in op["hs"]))
+            return "ok"
+        h = s.get(op["h"])
+        if name == "set_adaptive":
+            v, via = bool(op.get("value", True)), op.get("via", "method")
+            if via == "property":
+                h.adaptive = v
+            elif via == "binning":
+                h.binning.set_adaptive(v)
+            else:
+                h.set_adaptive(v)
+        elif name == "set_keep":
+            h.keep_missed = bool(op["value"])
+        else:
+            from physt.io import parse_json
+            s.set(op["out"], parse_json(h.to_json()))
+        return "ok"
+    except Exception as e:      # a refused call: the class is recorded, never compared
+        log.append(f"{name}: {type(e).__name__}: {e}"[:200])
+        return REFUSED
+
+
+def seq_run_impl(case):
+    from .. import impl1, implnd
+    nd = case["kind"] == "histn"
+    step, snap = (implnd.step, implnd.snapn) if nd else (impl1.step, impl1.snap1)
+
+    def run(observe):
+        s, log, outs, ret = impl1.Store(), [], [], None
+        for op in case["ops"]:
+            ret = _seq_extra_step(s, op, log)
+            if ret is NotImplemented:
+                ret = step(s, op, log)
+            if observe:
+                outs.append({"ret": ret, "regs": [None if h is None else snap(h) for h in s.regs]})
+        if observe:
+            return outs, log
+        return {"ret": ret, "regs": [None if h is None else snap(h) for h in s.regs]}
+    outs, log = run(True)
+    # the same history again without reading anything between the operations (runner.oracle_of)
+    return {"outs": outs, "log": log, "unobserved_outs": outs[:-1] + [run(False)]}
+
+
+# ------------------------------------------------------------------------------------------------------- the oracle
+def _seq_view(snap, nd):
+    """a histogram as the property sees it: non-zero cells keyed by their edges, range per axis, missed slots"""
+    if nd:
+        from .nd_parts import _cells
+        cells = _cells(snap)
+        axes = snap["bins"]
+        slots = [snap["missed"]]
+    else:
+        cells = {}
+        for (l, r), f, e in zip(snap["bins"], snap["freq"], snap["err2"]):
+            if Fraction(f) != 0 or Fraction(e) != 0:
+                cells[((l, r),)] = (Fraction(f), Fraction(e))
+        axes = [snap["bins"]]
+        slots = [snap["under"], snap["over"], snap["inner"]]
+    spans = [(Fraction(b[0][0]), Fraction(b[-1][1])) if b else None for b in axes]
+    return {"cells": cells, "axes": axes, "spans": spans, "slots": slots, "total": Fraction(snap["total"]),
+            "known": all(x is not None for x in slots)}
+
+
+def _seq_missed(v):
+    return sum((Fraction(x) for x in v["slots"]), Fraction(0))
+
+
+def _seq_operands(op):
+    if op["op"] == "add":
+        return op["a"], op["b"], op["out"]
+    if op["op"] == "sum":
+        return op["hs"][0], op["hs"][1], op["out"]
+    return op["h"], op["o"], op["h"]
+
+
+def _seq_call(op):
+    x, y, _ = _seq_operands(op)
+    n = lambda i: {0: "a", 1: "b", 6: "copy(a)", 7: "copy(b)"}.get(i, f"r{i}")
+    return {"add": f"{n(x)} + {n(y)}", "sum": f"sum([{n(x)}, {n(y)}])", "iadd": f"{n(x)} += {n(y)}"}[op["op"]]
+
+
+def seq_oracle(case, io):
+    outs, ops = io["outs"], case["ops"]
+    nd = case["kind"] == "histn"
+    src = case["src"]
+    fails = []
+    for k, op in enumerate(ops):
+        if op.get("setup") and outs[k]["ret"] == "REFUSED" and not op.get("maybe"):
+            return [f"refused_valid: setup step {k} ({op['op']}) was refused: " + "; ".join(io["log"][:2])]
+    grid = [(Fraction(w), Fraction(src.get("shift", "0"))) for w in ([src["w"]] if not nd else src["ws"])]
+    results = {}
+    for k, op in enumerate(ops):
+        if op["op"] not in ("add", "sum", "iadd") or k == 0:
+            continue
+        xi, yi, ri = _seq_operands(op)
+        prev, now = outs[k - 1]["regs"], outs[k]["regs"]
+        if max(xi, yi) >= len(prev) or prev[xi] is None or prev[yi] is None:
+            continue
+        call = _seq_call(op)
+        # operands (every register but the target of +=) are never modified
+        for i, p in enumerate(prev):
+            if i != ri and p is not None and (i >= len(now) or p != now[i]):
+                diffs = [f for f in p if i >= len(now) or now[i] is None or p[f] != now[i].get(f)]
+                fails.append(f"operand_modified: {call} changed register {i} ({'a' if i == 0 else 'b' if i == 1 else 'a result'}): "
+                             f"fields {diffs}")
+        sx, sy = prev[xi], prev[yi]
+        x, y = _seq_view(sx, nd), _seq_view(sy, nd)
+        same_bins = sx["bins"] == sy["bins"]
+        if outs[k]["ret"] == "REFUSED":
+            if same_bins:
+                fails.append(f"refused_valid: {call} was refused although both operands have the same bins: " + "; ".join(io["log"][-2:]))
+            elif (sx["adaptive"] and sy["adaptive"] and x["known"] and y["known"] and _seq_missed(x) == 0 and _seq_missed(y) == 0
+                  and (nd or (sx["binning"]["t"] == sy["binning"]["t"] == "fixed" and sx["binning"]["w"] == sy["binning"]["w"]))):
+                fails.append(f"refused_valid: {call} was refused although both operands are adaptive on one grid and neither has "
+                             f"missed weight: " + "; ".join(io["log"][-2:]))
+            continue
+        if outs[k]["ret"] != "ok" or ri >= len(now) or now[ri] is None:
+            continue
+        sr = now[ri]
+        r = _seq_view(sr, nd)
+        results[k] = (sr, r, x, y)
+        # every bin of the result holds what both operands held in that very bin; no filled operand bin is missing
+        exp = dict(x["cells"])
+        for key, (f, e) in y["cells"].items():
+            f0, e0 = exp.get(key, (Fraction(0), Fraction(0)))
+            exp[key] = (f0 + f, e0 + e)
+        exp = {key: v for key, v in exp.items() if v != (0, 0)}
+        if exp != r["cells"]:
+            bad = [key for key in sorted(set(exp) | set(r["cells"])) if exp.get(key) != r["cells"].get(key)][:3]
+            show = lambda v: None if v is None else (rs(v[0]), rs(v[1]))
+            fails.append(f"sum_differs: {call}: bins {bad}: content / squared error {[show(r['cells'].get(b)) for b in bad]} in the "
+                         f"result, the operands hold {[show(exp.get(b)) for b in bad]} there")
+        # the union of both ranges, on the common grid
+        for ax, (w, sh) in enumerate(grid):
+            have = [v["spans"][ax] for v in (x, y) if v["spans"][ax] is not None]
+            if have and r["spans"][ax] != (min(s[0] for s in have), max(s[1] for s in have)):
+                fails.append(f"union_span: {call}: axis {ax} of the result spans {r['spans'][ax]}, the operands "
+                             f"{[v['spans'][ax] for v in (x, y)]}")
+            edges = [Fraction(e) for b in r["axes"][ax] for e in b]
+            if any(((e - sh) / w).denominator != 1 for e in edges) or any(
+                    r["axes"][ax][i][1] != r["axes"][ax][i + 1][0] for i in range(len(r["axes"][ax]) - 1)):
+                fails.append(f"off_grid: {call}: the bins of axis {ax} of the result are not consecutive cells of the common grid")
+        # nothing is lost: contents + missed
+        if x["known"] and y["known"]:
+            if not r["known"]:
+                if sx["keep"] and sy["keep"]:
+                    fails.append(f"missed_unknown: {call}: both operands report their missed weight, the result reports NaN")
+            else:
+                kept, entered = r["total"] + _seq_missed(r), x["total"] + _seq_missed(x) + y["total"] + _seq_missed(y)
+                if kept != entered:
+                    fails.append(f"weight_lost: {call} was accepted and accounts for {kept} (contents {r['total']} + missed "
+                                 f"{r['slots']}) of the {entered} both operands hold (contents {x['total']} + missed {x['slots']}, "
+                                 f"contents {y['total']} + missed {y['slots']})")
+                elif same_bins and [Fraction(p) + Fraction(q) for p, q in zip(x["slots"], y["slots"])] != [Fraction(z) for z in r["slots"]]:
+                    fails.append(f"missed_differs: {call} (equal bins): missed slots {r['slots']}, the operands' are {x['slots']} and "
+                                 f"{y['slots']}")
+        exp_dt = str(np.promote_types(sx["dtype"], sy["dtype"]))
+        if sr["dtype"] != exp_dt:
+            fails.append(f"dtype_promotion: ({call}).dtype = {sr['dtype']}, numpy promotion of {sx['dtype']} and {sy['dtype']} is {exp_dt}")
+        if not nd and sx["stats"]["valid"] and sy["stats"]["valid"]:
+            a, b = sx["stats"], sy["stats"]
+            mm = lambda f, pick: (lambda v: None if not v else rs(pick(v)))([Fraction(s[f]) for s in (a, b) if s[f] is not None])
+            want = {"valid": True, "sum": rs(Fraction(a["sum"]) + Fraction(b["sum"])), "sum2": rs(Fraction(a["sum2"]) + Fraction(b["sum2"])),
+                    "weight": rs(Fraction(a["weight"]) + Fraction(b["weight"])), "min": mm("min", min), "max": mm("max", max)}
+            sd = stats_same(sr["stats"], want)
+            if sd:
+                fails.append(f"stats_differ: {call}: statistics {sd} of the result are {[sr['stats'].get(f) for f in sd]}, the operands' "
+                             f"add up to {[want.get(f) for f in sd]}")
+    # both orders / the in-place form: the same histogram wherever both are accepted
+    for k1, k2 in case.get("same", []):
+        if k1 in results and k2 in results:
+            (s1, r1, x1, y1), (s2, r2, _, _) = results[k1], results[k2]
+            d = [f for f in ("bins", "freq", "err2", "dtype") if s1[f] != s2[f]]
+            if x1["known"] and y1["known"] and r1["known"] and r2["known"] and [Fraction(z) for z in r1["slots"]] != [Fraction(z) for z in r2["slots"]]:
+                d.append("missed")
+            if d:
+                fails.append(f"order_differs: {_seq_call(ops[k1])} and {_seq_call(ops[k2])} were both accepted and differ in {d}: "
+                             f"{[s1.get(f, r1['slots']) for f in d]} vs {[s2.get(f, r2['slots']) for f in d]}"[:700])
+    return fails[:6]
+
+
+def seq_shrink(case):
+    """drop one value / row, one optional stage of a history; the case is rebuilt from its description"""
+    src = case["src"]
+    nd = case["kind"] == "histn"
+    rebuild = seqn_build if nd else seq1_build
+    vkey = "rows" if nd else "vals"
+    for who in ("a", "b"):
+        sp = src[who]
+        for key, val in (("roundtrip", False), ("keep_ops", []), ("more", []), ("keep0", True)):
+            if sp.get(key) not in (val, None):
+                s2 = copy.deepcopy(src)
+                s2[who][key] = val
+                yield rebuild(s2)
+        for j in range(len(sp.get("more", []))):
+            s2 = copy.deepcopy(src)
+            del s2[who]["more"][j]
+            yield rebuild(s2)
+        if len(sp.get(vkey, [])) > 1:
+            for j in range(len(sp[vkey])):
+                s2 = copy.deepcopy(src)
+                del s2[who][vkey][j]
+                if s2[who]["ws"] is not None:
+                    del s2[who]["ws"][j]
+                if not nd and src.get("slice") is not None and who == "a" and len({v for v in s2["a"]["vals"]}) < 2:
+                    continue
+                yield rebuild(s2)
+        if sp.get(vkey) is not None and sp.get("ws") is not None:
+            s2 = copy.deepcopy(src)
+            s2[who]["ws"], s2[who]["wk"] = None, None
+            yield rebuild(s2)
+        if sp["route"] == "raw":
+            for key in (("under", "over") if not nd else ("missed",)):
+                if sp[key] not in ("0", "1"):
+                    s2 = copy.deepcopy(src)
+                    s2[who][key] = "1"
+                    yield rebuild(s2)
+
+
+def seq_neighbours(case):
+    """the same right operand against every kind of left operand, and fresh sequences (after a broken correspondence)"""
+    nd = case["kind"] == "histn"
+    rng = Rng("C05:seq-neighbours:" + case_hash(case))
+    src = case["src"]
+    for mode in ("adaptive_other", "adaptive_other", "adaptive_equal", "static_equal", "static_other"):
+        if src["b"]["route"] != "slice":
+            yield (seqn_gen if nd else seq1_gen)(rng, left=mode, keep_b=src)
+    for _ in range(12):
+        yield (seqn_gen if nd else seq1_gen)(rng, left="adaptive_other")
+
+
 class C05(Hist1Prop):
     ID = "C05"
     N_QUICK = 300
@@ -67,7 +660,15 @@ class C05(Hist1Prop):
             "apart), or the other way round (static / numpy / fixed-width objects and arrays over the same edges, offsets a whole "
             "period apart, only includes_right_edge differs): a + b, b + a, a += b, sum([a, b]), HistogramCollection(a, b) / "
             ".add / .sum() must be refused when the bins clearly differ and hold the pointwise sums (= h of both data sets) when "
-            "they are equal; operands unchanged either way. non-trivial = both operands non-empty; distinct = hash of the op list")
+            "they are equal; operands unchanged either way. "
+            "One case in eight (1-D) / sixteen (N-d): SEQUENCE operands -- an adaptive operand that carries missed "
+            "weight (fixed range with outliers, THEN set_adaptive / .adaptive = True / binning.set_adaptive, optionally filled "
+            "further; the raw constructor with underflow / overflow; a JSON round trip of such), keep_missed toggled after "
+            "filling, a slice of an adaptive parent -- against a left operand that is adaptive with other bins / adaptive with "
+            "equal bins / not adaptive, through a + b, b + a, sum() in both orders and += on copies: an accepted addition "
+            "holds, bin by bin and in total + missed, everything both operands held (a refusal is fine, lost weight is not), "
+            "equal bins add their missed slots, operands unchanged, both orders agree. "
+            "non-trivial = both operands non-empty; distinct = hash of the op list")
     FIELDS = {"bins", "freq", "err2", "under", "over", "total", "dtype", "keep"}
 
     def fields_for(self, case):
@@ -83,6 +684,8 @@ class C05(Hist1Prop):
             return c05_bins.run_impl(case)
         if case.get("sub") == "coll":
             return coll_parts.run_impl(case)
+        if case.get("sub") == "seq":
+            return seq_run_impl(case)
         return super().run_impl(case)
 
     def model_case(self, case, io):
@@ -90,6 +693,10 @@ class C05(Hist1Prop):
             return c05_bins.model_case(case, io)
         if case.get("sub") == "coll":
             return coll_parts.model_case(case, io)
+        if case.get("sub") == "seq" and case["kind"] == "histn":
+            # the N-d driver has no `sum` op: sum([x, y]) is 0 + x + y = x.copy() + y, the fold the 1-D driver's `sum` computes
+            return dict(case, ops=[{"op": "add", "a": op["hs"][0], "b": op["hs"][1], "out": op["out"]} if op["op"] == "sum" else op
+                                   for op in case["ops"]])
         return super().model_case(case, io)
 
     def diff(self, case, model_ok, io):
@@ -97,11 +704,37 @@ class C05(Hist1Prop):
             return c05_bins.diff(case, model_ok, io, self.fields_for(case))
         if case.get("sub") == "coll":
             return coll_parts.diff(case, model_ok, io, self.fields_for(case))
+        if case.get("sub") == "seq" and isinstance(model_ok, list):
+            # the driver answers a JSON round trip with the document it wrote; the addition property does not look at it
+            model_ok = [dict(o, ret="ok") if op["op"] == "roundtrip" and isinstance(o, dict) and isinstance(o.get("ret"), dict) else o
+                        for o, op in zip(model_ok, case["ops"])]
         return super().diff(case, model_ok, io)
+
+    def tags(self, case, io):
+        t = super().tags(case, io)
+        if case.get("sub") == "seq":
+            nd = case["kind"] == "histn"
+            for k, op in enumerate(case["ops"]):
+                if op["op"] in ("add", "sum", "iadd") and k > 0:
+                    xi, yi, _ = _seq_operands(op)
+                    prev = io["outs"][k - 1]["regs"]
+                    if max(xi, yi) < len(prev) and prev[yi] is not None and prev[xi] is not None:
+                        y = _seq_view(prev[yi], nd)
+                        if prev[yi]["adaptive"] and y["known"] and _seq_missed(y) > 0 and prev[xi]["bins"] != prev[yi]["bins"]:
+                            t.append("seq:adaptive_right_operand_with_missed_weight:" + ("refused" if io["outs"][k]["ret"] == "REFUSED" else "accepted"))
+        return t
+
+    def neighbours(self, case):
+        if case.get("sub") == "seq":
+            yield from seq_neighbours(case)
 
     def gen_case(self, rng, k, tier):
         if k % 8 == 3:
             return c05_bins.gen(rng)       # stream:bins_vs_params
+        if k % 8 == 1:
+            return seq1_gen(rng)
+        if k % 16 == 14:
+            return seqn_gen(rng)
         if k % 8 == 5:
             return coll_parts.gen(rng)
         if k % 4 == 2:
@@ -212,6 +845,9 @@ class C05(Hist1Prop):
         if case.get("sub") == "coll":
             yield from coll_parts.shrink_candidates(case)
             return
+        if case.get("sub") == "seq":
+            yield from seq_shrink(case)
+            return
         if case.get("kind") == "histn":
             from . import nd_parts
             yield from nd_parts.c05_shrink(case)
@@ -230,6 +866,8 @@ class C05(Hist1Prop):
             return c05_bins.oracle(case, io)
         if case.get("sub") == "coll":
             return coll_parts.oracle(case, io)
+        if case.get("sub") == "seq":
+            return seq_oracle(case, io)
         if case.get("kind") == "histn":
             from . import nd_parts
             return nd_parts.c05_oracle(case, io)
@@ -303,6 +941,9 @@ class C05(Hist1Prop):
             return c05_bins.nontrivial(case, io)
         if case.get("sub") == "coll":
             return coll_parts.nontrivial(case, io)
+        if case.get("sub") == "seq":
+            regs = io["outs"][-1]["regs"]
+            return all(r is not None and Fraction(r["total"]) > 0 for r in regs[:2])
         if case.get("kind") == "histn":
             return len(case["src"]["sets"][0]) > 0 and len(case["src"]["sets"][1]) > 0
         s = case["src"]["sets"]
